@@ -79,7 +79,7 @@ CHECKS = {
         "(C08/C09/C19). Client discipline assumed: a member object does not start a second join; unlock only while an operator is a member.",
    technique="Lean 4 invariant proofs over interleavings of critical sections + differential check with forced schedules",
    ref="DESIGN.md section 5 C10"),
- "C13": dict(engine="unbounded+locks+group",
+ "C13": dict(engine="unbounded+locks+group+whip",
    text="(a) Lean 4 proofs over all interleavings of any number of producers (Put split into locked append and signal) and one consumer of unbounded.Channel: no lost "
         "wakeup, exactly-once in lock order, per-producer order, everything delivered at quiescence, and the CONSUMER side tied to the source: every use site of an "
         "unbounded.Channel outside its package is regenerated by the extractor (Generated/ChanUse.lean: put / receive-then-Get pair / new / other, fail closed) and the "
@@ -239,7 +239,7 @@ CHECKS = {
         "samplebuilder/pion defects keyed by history shape (cannot be repaired here: the dependency cannot be re-fetched).",
    technique="Lean 4 proofs (gap/fetch/timestamp glue) + model/implementation differential check + file read-back oracle",
    ref="DESIGN.md section 5 C20"),
- "C07": dict(engine="streams+down",
+ "C07": dict(engine="streams+down+whip",
    text="Lean 4 theorems about an executable model of the stream fan-out state machine (pushConn timers, action queues, pushDownConn/requestedTracks/replaceTracks/"
         "negotiate, delUpConn/leaveGroup), parametrised by the repairs f1/f3 (Fixes, currentFixes), for every state and every interleaving of client messages, OnTrack "
         "callbacks, timer expiries and single queued actions: selection rule, offer iff member-and-selected with exactly the selected tracks, isolation between groups "
